@@ -31,10 +31,14 @@ def children : XNode → List XNode
   | elem _ _ _ _ cs => cs
   | _ => []
 
-/-- `has_tag_name("local")`: elements only, local name only (any namespace) -/
+/-- the namespace of standard E57 elements -/
+def e57NsUri : String := "http://www.astm.org/COMMIT/E57/2010-e57-v1.0"
+
+/-- `xml::is_tag(node, "local")`: an element with that local name that is in no namespace or in
+    the E57 namespace (elements of extension namespaces never match) -/
 def hasTagName (n : XNode) (lname : String) : Bool :=
   match n with
-  | elem _ _ name _ _ => name == lname
+  | elem ns _ name _ _ => name == lname && (ns.isNone || ns == some e57NsUri)
   | _ => false
 
 def tagLocal : XNode → String
